@@ -181,7 +181,7 @@ def base_args(EoN, variant):
     def pgf(x): return sum(Pk[k] * x ** k for k in Pk)
     def pgf1(x): return sum(k * Pk[k] * x ** (k - 1) for k in Pk if k > 0)
     H = nx.DiGraph(); H.add_edge('I', 'R', rate=1.0)
-    J = nx.DiGraph(); J.add_edge(('I', 'S'), ('I', 'I'), rate=0.7)
+    J = nx.DiGraph(); J.add_edge(('I', 'S'), ('I', 'I'), rate=0.7, weight_label='tw')      # the edge attribute dicts of H and J are the caller's too
     IC = {n: 'S' for n in nodes}; IC[nodes[0]] = 'I'; IC[nodes[3]] = 'I'
     def rate_function(G_, node, status, parameters):
         if status[node] == 'I': return parameters[1]
